@@ -333,6 +333,10 @@ def run(ctx):
     tr_err = translate_all.run(strict=False, only=["interp"])
     ctx.obligation("translate:sigpy/interp.py", not tr_err)
     proof_ok = False if tr_err else ctx.prove("Prop_C06.v")
+    # tie by translation (DESIGN 2.8): gen/Gen_fourier.v is regenerated from fourier.py (translate_all job "fourier") and compiled;
+    # its lemmas gen_nufft_ok, gen_nufft_adjoint_ok, gen__scale_coord_ok, gen__apodize_ok, ... state generated == hand model
+    from tools import translate_fourier
+    tie_broken = translate_fourier.tie(ctx, "nufft")    # obligations "translate:sigpy/fourier.py (...)", "tie:generated == hand model (...)"
     sp = core.import_sigpy()
     rng = ctx.rng
     nrng = np.random.default_rng(rng.randrange(2 ** 31))
@@ -429,12 +433,14 @@ def run(ctx):
         seen.add(key)
         ctx.violation("C06: model and implementation disagree on %s" % key, {"kind": "correspondence", "broken": "corr:" + key, "case": d["info"]},
                       found_input=False, signature="C06:corr:" + key)
-    if (not proof_ok or tr_err or not corr_ok) and not ctx.violations:
-        broken = getattr(ctx, "broken_proof", {"theorem": "translate:sigpy/interp.py" if tr_err else "corr:coq-run", "log": str(tr_err)})
+    if (not proof_ok or tr_err or not corr_ok or tie_broken) and not ctx.violations:
+        broken = getattr(ctx, "broken_proof", tie_broken or {"theorem": "translate:sigpy/interp.py" if tr_err else "corr:coq-run", "log": str(tr_err)})
         ctx.violation("proof obligation no longer checks: %s" % broken.get("theorem"), {"kind": "proof", "broken": broken},
                       found_input=False, signature="C06:proof")
     ctx.trusted += ["Coq 8.16.1 kernel + vm_compute (PrimFloat for running only)",
-                    "hand model coq/model/Nufft.v (and model/Interp.v wrappers, model/Fourier.v), tied by this run's correspondence",
+                    "hand model coq/model/Nufft.v (and model/Interp.v wrappers, model/Fourier.v), tied by this run's correspondence and, as the reading "
+                    "of nufft / nufft_adjoint / _get_oversamp_shape / _scale_coord / _apodize (estimate_shape, toeplitz_psf: model/NufftExt.v), by "
+                    "tools/translate_fourier.py (fail-closed ast translator, readings in notes/translate_fourier.md) + the lemmas of gen/Gen_fourier.v",
                     "oracles: numpy.fft (explicit DFT sum with the twiddle table), numpy sinh, the implementation's Kaiser-Bessel kernel values, pi",
                     "tools/translate_loops.py for the interpolation / gridding kernels"]
     ctx.proved += ["see coq/props/Prop_C06.v (theorem list in obligation_list)"]
